@@ -297,7 +297,7 @@ func panicSite(st string) string {
 		}
 		if strings.HasPrefix(l, "github.com/gobwas/") {
 			fn := l
-			if j := strings.Index(fn, "("); j > 0 {
+			if j := strings.LastIndex(fn, "("); j > 0 {
 				fn = fn[:j]
 			}
 			return strings.TrimPrefix(fn, "github.com/gobwas/")
